@@ -123,6 +123,8 @@ Inv_C06(e) ==
 
 Inv_C07(e) ==
     CASE e.op = "Swap" -> (source = "os" => e.prev_is_os)
+      [] e.op = "NewMnemonic" /\ source # "os" ->             \* whatever the source: the output is made of the source's bytes only
+            (e.err.nil /\ BigOK(e.n) /\ IsSupported(e.lang) => ReadFullOK /\ e.out = Mnemonic(SubSeq(delivered, 1, need), e.lang))
       [] e.op = "NewMnemonic" -> (source = "os" /\ BigOK(e.n) /\ IsSupported(e.lang) =>
                 /\ e.err.nil /\ Canonical(e.out, e.lang) /\ Len(Tokens(e.out)) = e.n.v
                 /\ e.out \notin osOuts                                        \* fresh output on every call
